@@ -405,7 +405,7 @@ macro_rules! set_ops {
                         let r = match a[0] {
                             "pure" => sk.try_sign_with_rng(&mut rng, &msg, &ctx),
                             "internal" => {
-                                let rnd = match rng.script.get(0) { Some(Resp::Ok(b)) => arr::<32>(b), _ => [0u8; 32] };
+                                let rnd: [u8; 32] = match rng.script.get(0) { Some(Resp::Ok(b)) if !b.is_empty() => core::array::from_fn(|i| b[i % b.len()]), _ => [0u8; 32] };
                                 ps::_internal_sign(&sk, &msg, &ctx, rnd)
                             }
                             m => sk.try_hash_sign_with_rng(&mut rng, &msg, &ctx, &ph(m)),
@@ -427,6 +427,17 @@ macro_rules! set_ops {
                             m => pk.hash_verify(&msg, &sig, &ctx, &ph(m)),
                         };
                         format!("{}", r)
+                    }
+                    "os_keygen" => {
+                        // OS-RNG convenience function: two calls must give different keys (freshness sanity, C12)
+                        let (pk, _sk) = ps::try_keygen().unwrap();
+                        tohex(&pk.into_bytes()[0..48])
+                    }
+                    "os_sign" => {
+                        let sk = match sk_src(a[0]) { Ok(s) => s, Err(_) => return "err:sk".into() };
+                        let sig = sk.try_sign(&hex(a[1]), &[]).unwrap();
+                        let sig2 = sk.try_hash_sign(&hex(a[1]), &[], &Ph::SHA256).unwrap();
+                        format!("{} {}", tohex(&sig[0..48]), tohex(&sig2[0..48]))
                     }
                     "dudect" => {
                         let mut rng = ScriptRng::new(a[1]);
